@@ -273,7 +273,7 @@ pub fn run(tier: Tier) -> i32 {
     });
     acc.merge(h);
     rep.acc = acc;
-    rep.set("rule", json!("E2: every index_levels = 0 file of the population (all block sizes x intervals; every codec; universe subsets; deep and dense) is re-trailed by the harness's own encoder into V1 (21 bytes: offset u64-LE, codec u8, count u64-LE, magic 0x76324D4C); Reader::new must report FormatV1, the stored count and codec, and every query of the batteries of C01 (6 scans), C02 (GE/LE/EQ x probes x fresh/reset), C04 (all bound pairs x 2 directions) and C05 (prefixes x 2 directions) must return result-for-result what the V2 twin returns; on a few multi-block V1 files every cursor operation sequence up to a fixed length (first/last/next/prev/reset and seeks, no deduplication) is run and each result compared with the sorted content, so that seeks on a cursor positioned elsewhere are covered; states = files, transitions = queries compared; for small files the twins are also compared with perturbed stored counts (0, 1, 2^32-1, 2^32, 2^32+300, u64::MAX); distinct_nontrivial = non-empty files"));
+    rep.set("rule", json!("E2: every index_levels = 0 file of the population (all block sizes x intervals; every codec; universe subsets; deep and dense) is re-trailed by the harness's own encoder into V1 (21 bytes: offset u64-LE, codec u8, count u64-LE, magic 0x76324D4C); Reader::new must report FormatV1, the stored count and codec, and every query of the batteries of C01 (6 scans), C02 (GE/LE/EQ x probes x fresh/reset), C04 (all bound pairs x 2 directions) and C05 (prefixes x 2 directions) must return result-for-result what the V2 twin returns (files with a codec and files above 64 entries get an evenly strided sample of the batteries); on a few multi-block V1 files every cursor operation sequence up to a fixed length (first/last/next/prev/reset and seeks, no deduplication) is run and each result compared with the sorted content, so that seeks on a cursor positioned elsewhere are covered; states = files, transitions = queries compared; for small files the twins are also compared with perturbed stored counts (0, 1, 2^32-1, 2^32, 2^32+300, u64::MAX); distinct_nontrivial = non-empty files"));
     rep.set("bound", json!({"files": specs.len(), "shape_sequence_max_len": tier.pick(3, 4), "universe_max_subset_size": tier.pick(2, 3)}));
     rep.assume("no V1 writer exists in the tree: V1 files are produced by replacing the V2 trailer of an index_levels = 0 file, whose block area has the same layout in both versions");
     rep.finish()
